@@ -102,6 +102,25 @@ def run(ctx):
     ctx.rule("C20.R2", "cursor steps are guarded", floor=4)
     from ..panics import Ledger
     L0 = Ledger(ctx, [HK])
+    def is_count(x):
+        """the number of characters of the line: chars().count(), directly or through a named temporary"""
+        if "count(" in expr_str(x, 200):
+            return True
+        y = x
+        while y[0] in ("ref", "deref", "cast"):
+            y = y[3] if y[0] == "cast" else y[1]
+        return y[0] == "local" and "count(" in expr_str(hk.local_expr(y[1], 8), 300)
+
+    def at_least_one(cons):
+        for c, v in cons:
+            if c[0] == "bin" and v != 0 and cur in expr_str(c[2]) and c[3][0] == "const":
+                if (c[1] == "Gt" and c[3][1] >= 0) or (c[1] == "Ge" and c[3][1] >= 1) or (c[1] == "Ne" and c[3][1] == 0):
+                    return True
+        return False
+
+    def below_count(cons, op):
+        return any(c[0] == "bin" and c[1] == op and v != 0 and cur in expr_str(c[2]) and is_count(c[3]) for c, v in cons)
+
     for b, i, s in hk.assigns():
         fl = fields_of(s["p"])
         if not (fl and fl[-1] == cur):
@@ -111,10 +130,10 @@ def run(ctx):
             ctx.instance(1)
             cons = L0._dom_constraints(hk, b)
             if e[1] == "Sub":
-                ok = any(c[0] == "bin" and ((c[1] == "Gt" and v != 0 and cur in expr_str(c[2]) and c[3] == ("const", 0))) for c, v in cons)
+                ok = at_least_one(cons)
                 why = "dominated by cursor > 0"
             else:
-                lt = any(c[0] == "bin" and c[1] == "Lt" and v != 0 and cur in expr_str(c[2]) and "count(" in expr_str(c[3]) for c, v in cons)
+                lt = below_count(cons, "Lt")
                 ins = any(c == T + "insert_char_index" and hk.dominates(bb, b) and cur in expr_str(hk.expr(t["args"][1], 6, stop={"named"}))
                           for bb, t, c in hk.calls())
                 ok = lt or ins
@@ -129,8 +148,8 @@ def run(ctx):
         if c == T + "remove_char_index":
             ctx.instance(1)
             cons = L0._dom_constraints(hk, bb, stable=False)
-            lt = any(cc[0] == "bin" and cc[1] == "Lt" and v != 0 and cur in expr_str(cc[2]) and "count(" in expr_str(cc[3]) for cc, v in cons)
-            le = any(cc[0] == "bin" and cc[1] == "Le" and v != 0 and cur in expr_str(cc[2]) and "count(" in expr_str(cc[3]) for cc, v in cons)
+            lt = below_count(cons, "Lt")
+            le = below_count(cons, "Le")
             dec = any(fields_of(s["p"])[-1:] == [cur] and hk.dominates(b2, bb) and hk.rvalue_expr(s["r"], 6, stop={"named"})[1:2] == ("Sub",)
                       for b2, i2, s in hk.assigns())
             ok = lt or (le and dec)
